@@ -7,6 +7,6 @@ From Sophia.gen Require Consts.
 
 Theorem max_depth_regenerated :
   Consts.pretty_max_depth_found = true -> Consts.pretty_max_depth = max_depth.
-Proof. intros _. vm_compute. reflexivity. Qed.
+Proof. intros Hf. first [ (vm_compute in Hf; discriminate Hf) | (vm_compute; reflexivity) ]. Qed.
 
 Print Assumptions max_depth_regenerated.
